@@ -13,8 +13,31 @@ import (
 // if it lies in its frozen arena: an atomically updated integer is legitimate
 // shared state and holds no pointers).
 
-// OnAtomicWrite, when set, is called before an atomic store/add/swap/CAS.
-var OnAtomicWrite func(addr uintptr)
+// IsFrozen, when set, tells whether an address lies in memory the harness has
+// made read-only. Atomic operations on such addresses are virtualised: the
+// value lives in a side table (initialised from memory on first use), so the
+// memory itself is never written and the write trap stays exact for every
+// other store to the same page.
+var IsFrozen func(addr uintptr) bool
+
+var virtualAtomics = map[uintptr]*uint64{}
+
+func virtualCell(p unsafe.Pointer, size int) *uint64 {
+	if IsFrozen == nil || !IsFrozen(uintptr(p)) {
+		return nil
+	}
+	c := virtualAtomics[uintptr(p)]
+	if c == nil {
+		c = new(uint64)
+		if size == 4 {
+			*c = uint64(*(*uint32)(p))
+		} else {
+			*c = *(*uint64)(p)
+		}
+		virtualAtomics[uintptr(p)] = c
+	}
+	return c
+}
 
 type atomicState struct{ vc []uint32 }
 
@@ -40,9 +63,6 @@ func (sim *Sim) atomicOp(p unsafe.Pointer, write bool, site int, what string) {
 }
 
 func atomicPre(p unsafe.Pointer, write bool, site int, what string) {
-	if write && OnAtomicWrite != nil {
-		OnAtomicWrite(uintptr(p))
-	}
 	if sim := cur; sim != nil && !sim.dead() {
 		sim.atomicOp(p, write, site, what)
 	}
@@ -50,81 +70,180 @@ func atomicPre(p unsafe.Pointer, write bool, site int, what string) {
 
 func AtomicAddInt32(p *int32, d int32, site int) int32 {
 	atomicPre(unsafe.Pointer(p), true, site, "atomic.AddInt32")
+	if c := virtualCell(unsafe.Pointer(p), 4); c != nil {
+		v := int32(*c) + d
+		*c = uint64(v)
+		return v
+	}
 	return atomic.AddInt32(p, d)
-}
-func AtomicAddInt64(p *int64, d int64, site int) int64 {
-	atomicPre(unsafe.Pointer(p), true, site, "atomic.AddInt64")
-	return atomic.AddInt64(p, d)
-}
-func AtomicAddUint32(p *uint32, d uint32, site int) uint32 {
-	atomicPre(unsafe.Pointer(p), true, site, "atomic.AddUint32")
-	return atomic.AddUint32(p, d)
-}
-func AtomicAddUint64(p *uint64, d uint64, site int) uint64 {
-	atomicPre(unsafe.Pointer(p), true, site, "atomic.AddUint64")
-	return atomic.AddUint64(p, d)
 }
 func AtomicLoadInt32(p *int32, site int) int32 {
 	atomicPre(unsafe.Pointer(p), false, site, "atomic.LoadInt32")
+	if c := virtualCell(unsafe.Pointer(p), 4); c != nil {
+		return int32(*c)
+	}
 	return atomic.LoadInt32(p)
-}
-func AtomicLoadInt64(p *int64, site int) int64 {
-	atomicPre(unsafe.Pointer(p), false, site, "atomic.LoadInt64")
-	return atomic.LoadInt64(p)
-}
-func AtomicLoadUint32(p *uint32, site int) uint32 {
-	atomicPre(unsafe.Pointer(p), false, site, "atomic.LoadUint32")
-	return atomic.LoadUint32(p)
-}
-func AtomicLoadUint64(p *uint64, site int) uint64 {
-	atomicPre(unsafe.Pointer(p), false, site, "atomic.LoadUint64")
-	return atomic.LoadUint64(p)
 }
 func AtomicStoreInt32(p *int32, v int32, site int) {
 	atomicPre(unsafe.Pointer(p), true, site, "atomic.StoreInt32")
+	if c := virtualCell(unsafe.Pointer(p), 4); c != nil {
+		*c = uint64(v)
+		return
+	}
 	atomic.StoreInt32(p, v)
-}
-func AtomicStoreInt64(p *int64, v int64, site int) {
-	atomicPre(unsafe.Pointer(p), true, site, "atomic.StoreInt64")
-	atomic.StoreInt64(p, v)
-}
-func AtomicStoreUint32(p *uint32, v uint32, site int) {
-	atomicPre(unsafe.Pointer(p), true, site, "atomic.StoreUint32")
-	atomic.StoreUint32(p, v)
-}
-func AtomicStoreUint64(p *uint64, v uint64, site int) {
-	atomicPre(unsafe.Pointer(p), true, site, "atomic.StoreUint64")
-	atomic.StoreUint64(p, v)
 }
 func AtomicSwapInt32(p *int32, v int32, site int) int32 {
 	atomicPre(unsafe.Pointer(p), true, site, "atomic.SwapInt32")
+	if c := virtualCell(unsafe.Pointer(p), 4); c != nil {
+		old := int32(*c)
+		*c = uint64(v)
+		return old
+	}
 	return atomic.SwapInt32(p, v)
-}
-func AtomicSwapInt64(p *int64, v int64, site int) int64 {
-	atomicPre(unsafe.Pointer(p), true, site, "atomic.SwapInt64")
-	return atomic.SwapInt64(p, v)
-}
-func AtomicSwapUint32(p *uint32, v uint32, site int) uint32 {
-	atomicPre(unsafe.Pointer(p), true, site, "atomic.SwapUint32")
-	return atomic.SwapUint32(p, v)
-}
-func AtomicSwapUint64(p *uint64, v uint64, site int) uint64 {
-	atomicPre(unsafe.Pointer(p), true, site, "atomic.SwapUint64")
-	return atomic.SwapUint64(p, v)
 }
 func AtomicCompareAndSwapInt32(p *int32, o, n int32, site int) bool {
 	atomicPre(unsafe.Pointer(p), true, site, "atomic.CompareAndSwapInt32")
+	if c := virtualCell(unsafe.Pointer(p), 4); c != nil {
+		if int32(*c) != o {
+			return false
+		}
+		*c = uint64(n)
+		return true
+	}
 	return atomic.CompareAndSwapInt32(p, o, n)
+}
+
+func AtomicAddInt64(p *int64, d int64, site int) int64 {
+	atomicPre(unsafe.Pointer(p), true, site, "atomic.AddInt64")
+	if c := virtualCell(unsafe.Pointer(p), 8); c != nil {
+		v := int64(*c) + d
+		*c = uint64(v)
+		return v
+	}
+	return atomic.AddInt64(p, d)
+}
+func AtomicLoadInt64(p *int64, site int) int64 {
+	atomicPre(unsafe.Pointer(p), false, site, "atomic.LoadInt64")
+	if c := virtualCell(unsafe.Pointer(p), 8); c != nil {
+		return int64(*c)
+	}
+	return atomic.LoadInt64(p)
+}
+func AtomicStoreInt64(p *int64, v int64, site int) {
+	atomicPre(unsafe.Pointer(p), true, site, "atomic.StoreInt64")
+	if c := virtualCell(unsafe.Pointer(p), 8); c != nil {
+		*c = uint64(v)
+		return
+	}
+	atomic.StoreInt64(p, v)
+}
+func AtomicSwapInt64(p *int64, v int64, site int) int64 {
+	atomicPre(unsafe.Pointer(p), true, site, "atomic.SwapInt64")
+	if c := virtualCell(unsafe.Pointer(p), 8); c != nil {
+		old := int64(*c)
+		*c = uint64(v)
+		return old
+	}
+	return atomic.SwapInt64(p, v)
 }
 func AtomicCompareAndSwapInt64(p *int64, o, n int64, site int) bool {
 	atomicPre(unsafe.Pointer(p), true, site, "atomic.CompareAndSwapInt64")
+	if c := virtualCell(unsafe.Pointer(p), 8); c != nil {
+		if int64(*c) != o {
+			return false
+		}
+		*c = uint64(n)
+		return true
+	}
 	return atomic.CompareAndSwapInt64(p, o, n)
+}
+
+func AtomicAddUint32(p *uint32, d uint32, site int) uint32 {
+	atomicPre(unsafe.Pointer(p), true, site, "atomic.AddUint32")
+	if c := virtualCell(unsafe.Pointer(p), 4); c != nil {
+		v := uint32(*c) + d
+		*c = uint64(v)
+		return v
+	}
+	return atomic.AddUint32(p, d)
+}
+func AtomicLoadUint32(p *uint32, site int) uint32 {
+	atomicPre(unsafe.Pointer(p), false, site, "atomic.LoadUint32")
+	if c := virtualCell(unsafe.Pointer(p), 4); c != nil {
+		return uint32(*c)
+	}
+	return atomic.LoadUint32(p)
+}
+func AtomicStoreUint32(p *uint32, v uint32, site int) {
+	atomicPre(unsafe.Pointer(p), true, site, "atomic.StoreUint32")
+	if c := virtualCell(unsafe.Pointer(p), 4); c != nil {
+		*c = uint64(v)
+		return
+	}
+	atomic.StoreUint32(p, v)
+}
+func AtomicSwapUint32(p *uint32, v uint32, site int) uint32 {
+	atomicPre(unsafe.Pointer(p), true, site, "atomic.SwapUint32")
+	if c := virtualCell(unsafe.Pointer(p), 4); c != nil {
+		old := uint32(*c)
+		*c = uint64(v)
+		return old
+	}
+	return atomic.SwapUint32(p, v)
 }
 func AtomicCompareAndSwapUint32(p *uint32, o, n uint32, site int) bool {
 	atomicPre(unsafe.Pointer(p), true, site, "atomic.CompareAndSwapUint32")
+	if c := virtualCell(unsafe.Pointer(p), 4); c != nil {
+		if uint32(*c) != o {
+			return false
+		}
+		*c = uint64(n)
+		return true
+	}
 	return atomic.CompareAndSwapUint32(p, o, n)
+}
+
+func AtomicAddUint64(p *uint64, d uint64, site int) uint64 {
+	atomicPre(unsafe.Pointer(p), true, site, "atomic.AddUint64")
+	if c := virtualCell(unsafe.Pointer(p), 8); c != nil {
+		v := uint64(*c) + d
+		*c = uint64(v)
+		return v
+	}
+	return atomic.AddUint64(p, d)
+}
+func AtomicLoadUint64(p *uint64, site int) uint64 {
+	atomicPre(unsafe.Pointer(p), false, site, "atomic.LoadUint64")
+	if c := virtualCell(unsafe.Pointer(p), 8); c != nil {
+		return uint64(*c)
+	}
+	return atomic.LoadUint64(p)
+}
+func AtomicStoreUint64(p *uint64, v uint64, site int) {
+	atomicPre(unsafe.Pointer(p), true, site, "atomic.StoreUint64")
+	if c := virtualCell(unsafe.Pointer(p), 8); c != nil {
+		*c = uint64(v)
+		return
+	}
+	atomic.StoreUint64(p, v)
+}
+func AtomicSwapUint64(p *uint64, v uint64, site int) uint64 {
+	atomicPre(unsafe.Pointer(p), true, site, "atomic.SwapUint64")
+	if c := virtualCell(unsafe.Pointer(p), 8); c != nil {
+		old := uint64(*c)
+		*c = uint64(v)
+		return old
+	}
+	return atomic.SwapUint64(p, v)
 }
 func AtomicCompareAndSwapUint64(p *uint64, o, n uint64, site int) bool {
 	atomicPre(unsafe.Pointer(p), true, site, "atomic.CompareAndSwapUint64")
+	if c := virtualCell(unsafe.Pointer(p), 8); c != nil {
+		if uint64(*c) != o {
+			return false
+		}
+		*c = uint64(n)
+		return true
+	}
 	return atomic.CompareAndSwapUint64(p, o, n)
 }
